@@ -416,10 +416,18 @@ func checkStreamPingAnswer(c *Ctx, prop string) {
 		}
 		c.Check(prop+"/stream-ping/addressed-to-us", rule, e.Pos, forUs, "ack on the stream reachable without the ping naming this node or nobody {"+gea.CubeString(e.Cube)+"}")
 		if forUs {
-			seq := strings.ReplaceAll(untok(e.Store[m[1]+".SeqNo"].S), "~", "")
+			// the ack's fields as they were when it was encoded (the encoder is handed a pointer,
+			// after which the exploration no longer trusts the fields)
+			store := e.Store
+			for _, enc := range x.Effects {
+				if enc.Class == "CALL:encode" && enc.Detail["arg0"] == "ackRespMsg" && subCube(enc.Cube, e.Cube) {
+					store = enc.Store
+				}
+			}
+			seq := strings.ReplaceAll(untok(store[m[1]+".SeqNo"].S), "~", "")
 			if seq == "" {
 				// the ack is built as one composite literal: positional (SeqNo first) or keyed
-				lit := strings.ReplaceAll(untok(e.Store[m[1]].S), "~", "")
+				lit := strings.ReplaceAll(untok(store[m[1]].S), "~", "")
 				if k := strings.Index(lit, "{"); k >= 0 {
 					body := lit[k+1:]
 					if q := strings.Index(body, "SeqNo:"); q >= 0 {
